@@ -1436,6 +1436,9 @@ func discharge(results []*FuncResult, opt dischargeOpts) {
 				if j.o.Kind == "cover" && t > 3 {
 					t = 3 // reachability probes only need a quick "not unsat"
 				}
+				if j.o.Short && t > 4 {
+					t = 4
+				}
 				j.o.Result = solve(q, t, opt.solvers, keep)
 			}
 		}()
